@@ -343,6 +343,12 @@ CONDS = {
     'and': lambda L: ast.And(None, L.opaque('c', B), L.opaque('d', B)),
     'true': lambda L: ast.BoolValue(True, SPAN), 'false': lambda L: ast.BoolValue(False, SPAN),
     'int-to-bool': lambda L: ast.IntToBool(L.opaque('a')),
+    'byte-is-bool': lambda L: ast.IntToBool(ast.ByteToInt(L.opaque('a', Y))),
+    'int-is-byte-is-bool': lambda L: ast.IntToBool(ast.ByteToInt(ast.IntToByte(L.opaque('a')))),
+    'local-int-is-byte-is-bool': lambda L: ast.IntToBool(ast.ByteToInt(ast.IntToByte(L.local('a')))),
+    'not-int-is-byte-is-bool': lambda L: ast.Not(None, ast.IntToBool(ast.ByteToInt(ast.IntToByte(L.opaque('a'))))),
+    'not-int-is-byte': lambda L: ast.Not(None, ast.IntToBool(ast.ByteToInt(ast.IntToByte(L.local('a'))))),
+    'bool-is-int-is-bool': lambda L: ast.IntToBool(ast.ByteToInt(ast.BoolToByte(L.opaque('c', B)))),
 }
 
 
